@@ -357,3 +357,25 @@ PROPS["C07"] = {
     "min_quick": {"evaluations": 60},
     "min_thorough": {"evaluations": 4000},
 }
+
+
+def _cc(check, iters, shards=16):
+    return bin_job("vq-cc", lambda seed, n: [["--check", check, "--seed", seed * 1000 + i, "--iters", iters] for i in range(shards)],
+                   f"vq-cc:{check} {shards}x{iters}", replay=lambda rep, path: ["--check", check, "--replay", path])
+
+
+def _cc_miri(check, iters, shards):
+    return miri_job("vq-cc", lambda seed, n: [["--check", check, "--mode", "miri", "--seed", seed * 100 + i, "--iters", iters] for i in range(shards)],
+                    f"vq-cc:{check} under miri {shards}x{iters}", ["--check", check, "--mode", "miri", "--seed", 0, "--iters", 2], timeout=2400)
+
+
+PROPS["C10"]["tiers"]["quick"] += [_cc("cc", 1500), _cc_miri("cc", 100, 2)]
+PROPS["C10"]["tiers"]["thorough"] += [_cc("cc", 60000), _cc_miri("cc", 300, 8)]
+PROPS["C10"]["min_quick"].update({"controller_calls_checked": 10_000_000})
+PROPS["C09"]["tiers"]["quick"].append(_cc("rtt", 2000))
+PROPS["C09"]["tiers"]["thorough"].append(_cc("rtt", 80000))
+PROPS["C09"]["rule"] += (" A component job (vq-cc --check rtt) drives RttEstimator / Pto / the loss-threshold helpers with random sample sequences "
+                         "against a transcription of RFC 9002 section 5 and appendix A (1 ms granularity band accepted either way).")
+PROPS["C15"]["tiers"]["quick"] += [_cc("keys", 2000), _cc_miri("keys", 30, 2)]
+PROPS["C15"]["tiers"]["thorough"] += [_cc("keys", 80000), _cc_miri("keys", 60, 8)]
+PROPS["C15"]["min_quick"].update({"key_updates_performed": 100_000})
